@@ -119,3 +119,166 @@ PREDICATES.update({
     "C12-F2": c12_f2_spurious_nan_label,
     "C12-F3": c12_f3_blockwise_dask_labels,
 })
+# ---- C15 (xarray_reduce vs native xarray groupby) ------------------------------------------------------
+# the harness attaches its classification of the call to the case: case["_cls"] = {gd, t, shortcut, needs_broadcast,
+# per: {var: {passthrough, lacks_some}}, unique_dim, anybin, nan_labels}
+
+
+def _c15_var(detail):
+    import re
+
+    m = re.match(r"^(data|passthrough|groupby_reduce)\[(.*?)\]", detail)
+    return m.group(2) if m else None
+
+
+def c15_f1_group_dim_position(case, detail):
+    # _restore_dim_order recognises the group dim only if it is named like the grouper (not `<name>_bins`) and the grouper is
+    # 1-D: binned group dims (DataArray with a 1-D grouper, any Dataset) and N-D groupers of Datasets end up last
+    cls = case.get("_cls", {})
+    if "dims order" not in detail or len(case["by"]) != 1 or cls.get("shortcut"):
+        return False
+    b = case["by"][0]
+    return (b["bins"] is not None and (case["kind"] == "ds" or len(b["dims"]) == 1)) or (case["kind"] == "ds" and len(b["dims"]) >= 2)
+
+
+def c15_f2_shortcut_kwargs(case, detail):
+    # the plain-reduction shortcut calls ds.<func>(dim=…, skipna=…) and forgets keep_attrs and min_count; it forwards
+    # skipna to count/any/all, which do not take it
+    cls = case.get("_cls", {})
+    if not cls.get("shortcut"):
+        return False
+    if not case["keep_attrs"] and "attrs" in detail and not detail.startswith("coords"):
+        return True
+    if case.get("min_count") is not None and ("values differ" in detail or "dtype" in detail):
+        return True
+    return (case["func"] in ("count", "any", "all") and case["skipna"] is not None
+            and detail.startswith("flox-raised TypeError") and "unexpected keyword argument 'skipna'" in detail)
+
+
+def c15_f3_dataset_broadcast(case, detail):
+    # Dataset variables lacking a grouper dim or a reduced dim are broadcast against ALL of them before reducing:
+    # replication-sensitive reductions (sum, prod, count, var, std) are inflated; in the shortcut even pass-through variables
+    cls = case.get("_cls", {})
+    var = _c15_var(detail)
+    if case["kind"] != "ds" or not cls.get("needs_broadcast") or var is None:
+        return False
+    p = cls.get("per", {}).get(var, {})
+    return bool(p.get("lacks_some")) and case["func"] in ("sum", "prod", "count", "var", "std") and \
+        ("values differ" in detail or detail.startswith("passthrough[") or "dtype" in detail)
+
+
+def c15_f4_ellipsis_dimension_coordinate(case, detail):
+    # dim=... while grouping by a dimension coordinate: that dimension is taken out of the reduced dims and the call becomes a
+    # plain reduction over the other dims: repeated labels are not grouped, expected_groups are ignored, and for a 1-D object
+    # (nothing left to reduce) xarray raises
+    b = case["by"][0]
+    if not (case["dim"] == "..." and b["src"] in ("dimcoord", "nodimcoord") and b["bins"] is None):
+        return False
+    dup = len(set(b["vals"])) < len(b["vals"])
+    if len(case["dimorder"]) == 1 and (detail.startswith("flox-raised ValueError: dimensions") or detail.startswith("data[")):
+        return True    # nothing is left to reduce: xarray raises, or returns the data unreduced (e.g. integer median stays integer)
+    if b["src"] != "dimcoord":
+        return False
+    return (dup or b["expected"] is not None) and \
+        (detail.startswith("data[") or detail.startswith("coords") or detail.startswith("indexes"))
+
+
+def c15_f5_shortcut_keeps_unlabelled(case, detail):
+    # the shortcut never looks at the labels: positions whose label is NaN are kept (native drops them), and the
+    # expected_groups of a dimension-coordinate grouper are not applied (no reindexing of that dimension)
+    cls = case.get("_cls", {})
+    exp_dim = any(b["src"] == "dimcoord" and b["expected"] is not None for b in case["by"])
+    return bool(cls.get("shortcut") and (cls.get("nan_labels") or exp_dim)) and \
+        (detail.startswith("data[") or detail.startswith("coords") or detail.startswith("indexes") or detail.startswith("passthrough["))
+
+
+def c15_f6_missing_core_dims(case, detail):
+    # Dataset variable having some but not all of the explicitly reduced dims (and no broadcasting needed): apply_ufunc raises
+    cls = case.get("_cls", {})
+    return case["kind"] == "ds" and not cls.get("needs_broadcast") and detail.startswith("flox-raised ValueError: Missing core dims")
+
+
+def c15_f7_order_several_groupers(case, detail):
+    # several groupers: `_restore_dim_order` is skipped (nby == 1 guard); after the Dataset broadcast (which transposes every
+    # variable to the Dataset's dim order) the kept dims of a variable come out in Dataset order, not in the variable's own
+    cls = case.get("_cls", {})
+    return case["kind"] == "ds" and bool(cls.get("needs_broadcast")) and "dims order" in detail \
+        and (len(case["by"]) > 1 or bool(cls.get("shortcut")))
+
+
+PREDICATES.update({
+    "C15-F7": c15_f7_order_several_groupers,
+    "C15-F1": c15_f1_group_dim_position,
+    "C15-F2": c15_f2_shortcut_kwargs,
+    "C15-F3": c15_f3_dataset_broadcast,
+    "C15-F4": c15_f4_ellipsis_dimension_coordinate,
+    "C15-F5": c15_f5_shortcut_keeps_unlabelled,
+    "C15-F6": c15_f6_missing_core_dims,
+})
+# ---- C19 (cases are configuration cells of harness/c19_cells.py, see props_c19.C19.case_of) -------------------------
+
+_ARG = ("argmax", "argmin", "nanargmax", "nanargmin")
+
+
+def _nax(case):
+    if case.get("axis") in ("none", "all"):
+        return case.get("lnd")
+    return 1
+
+
+def c19_f1_argreduce_nd(case, detail):
+    # arg-reduction on chunked input whose labels are reduced over more than one axis: `assert len(axis) == 1`
+    return (case.get("func") in _ARG and case.get("layout") != "eager" and case.get("lnd", 1) >= 2 and _nax(case) >= 2
+            and case.get("extra") in (None, "dtype") and "AssertionError" in detail and "argreduce_preprocess" in detail)
+
+
+def c19_f2_blockwise_dask_labels(case, detail):
+    # method='blockwise' with dask labels: pandas is handed a dask array
+    return (case.get("method") == "blockwise" and bool(case.get("bydask")) and case.get("layout") != "eager"
+            and "TypeError" in detail and "requires a Series, Index, ExtensionArray" in detail)
+
+
+def c19_f3_rangeindex_reshape(case, detail):
+    # blockwise plan whose group labels are the RangeIndex of expected groups (reindex=True): `.reshape` on a RangeIndex
+    plan = (case.get("_plan") or {}).get("method")
+    return ((case.get("method") == "blockwise" or plan == "blockwise") and "AttributeError" in detail
+            and "'RangeIndex' object has no attribute 'reshape'" in detail)
+
+
+def c19_f4_allmissing_dask_labels(case, detail):
+    # every label missing, dask labels, no expected_groups: a spurious group labelled NaN is returned
+    return (case.get("layout") == "allmissing" and bool(case.get("bydask")) and not case.get("expected")
+            and case.get("method") in (None, "map-reduce") and detail.startswith("wrong-answer") and "shape" in detail)
+
+
+def c19_f5_nanfirstlast_int_partial_axes(case, detail):
+    # nanfirst / nanlast (first / last) on non-float data, a subset of the label axes reduced over several blocks:
+    # the integer intermediate fill (dtype minimum) overwrites real values in the combine
+    return (case.get("func") in ("nanfirst", "nanlast", "first", "last") and case.get("dtype") != "f8"
+            and case.get("lnd", 1) >= 2 and _nax(case) < case.get("lnd", 1) and case.get("layout") not in ("eager", "single")
+            and case.get("_outcome") == "ok"
+            and (detail.startswith("wrong-answer") or detail.startswith("auto-differs") or "neither-matches" in detail))
+
+
+def c19_f6_axis_toomany(case, detail):
+    # more reduced axes than the labels have dimensions: `assert nax <= by_.ndim`
+    return case.get("extra") == "axis-toomany" and "AssertionError" in detail and "groupby_reduce" in detail
+
+
+PREDICATES.update({
+    "C19-F1": c19_f1_argreduce_nd,
+    "C19-F2": c19_f2_blockwise_dask_labels,
+    "C19-F3": c19_f3_rangeindex_reshape,
+    "C19-F4": c19_f4_allmissing_dask_labels,
+    "C19-F5": c19_f5_nanfirstlast_int_partial_axes,
+    "C19-F6": c19_f6_axis_toomany,
+})
+
+
+def c19_f7_arg_float_dtype(case, detail):
+    # arg-reduction with a floating `dtype=` on input with leading dimensions: the float positions are used as indices
+    return (case.get("func") in _ARG and case.get("extra") == "dtype" and "TypeError" in detail
+            and "only int indices permitted" in detail)
+
+
+PREDICATES["C19-F7"] = c19_f7_arg_float_dtype
